@@ -514,13 +514,19 @@ def R5_pinocchio_superset(run):
             "pino_transfer_from_owner_to_vault_v2", "pino_update_tick_array_accounts", "reset_position_range", "decrease_liquidity_from_existing_range",
             "increase_liquidity_into_new_range", "pino_ensure_position_has_enough_rent_for_ticks", "execute_token_delta_transfers")]
         checks = []
+        from rules.common import verified_conditions
         for bi, t in h.calls():
             p = callee_path(t) or ""
-            if p.endswith(("verify_address", "verify_constraint")):
+            if p.endswith("verify_address"):
                 args = [pino.canon(h, pv.operand(a, bi, len(h.blocks[bi]["s"]))) for a in t["a"]]
                 mp, _ = cfg.must_pass_call(h, bi)
                 dom = all(cfg.dominates(h, bi, x) for x in eff)
                 checks.append((p.rsplit("::", 1)[-1], args, mp and dom and bool(eff), t["l"]))
+        # verify_constraint(c)?: c, or each conjunct of `a && b`
+        for (cterm, bi, line) in verified_conditions(h):
+            mp, _ = cfg.must_pass_call(h, bi)
+            dom = all(cfg.dominates(h, bi, x) for x in eff)
+            checks.append(("verify_constraint", [pino.canon(h, cterm)], mp and dom and bool(eff), line))
 
         def side(spec):
             kind, a, b = spec
@@ -657,6 +663,8 @@ def R5b_remaining_accounts(run):
         import re as _re
         n = 0
         stores = [w for w in writes.field_stores(facts) if w["fn"] is fn and w["kind"] == "assign"]
+        # ... and stores through a `&mut` of one of the fields handed to a (spliced-in) helper: `set_once(&mut parsed.transfer_hook_a, ..)`
+        stores += writes.deref_stores(fn, pv, self_adt=(enum[0]["path"].rsplit("::", 1)[0] + "::ParsedRemainingAccounts"))
         others = {int(v): b for v, b in t["ts"]}
         for v, target in sorted(others.items()):
             name = discr.get(v)
